@@ -224,20 +224,21 @@ func (l *Lexer) Split() []*Token {
 			tokLen = 0
 			var token *Token = nil
 
-			if next != '=' {
-				switch char {
-				case '!', '*', '+', '-', '/':
-					token = &Token{
-						Tp:   OPERATOR,
-						Data: string(char),
-						Pos:  i,
-					}
-				case '>', '<':
-					token = &Token{
-						Tp:   OPERATOR,
-						Data: string(char),
-						Pos:  i,
-					}
+			// * + - / never begin a two characters operator, ~ ^ ! > < do
+			// only when = follows: otherwise each is an operator by itself
+			// (dropping it would turn a*=b into a=b)
+			single := next != '='
+			switch char {
+			case '*', '+', '-', '/':
+				single = true
+			case '=':
+				single = false
+			}
+			if single {
+				token = &Token{
+					Tp:   OPERATOR,
+					Data: string(char),
+					Pos:  i,
 				}
 			}
 			if token != nil {
